@@ -311,6 +311,7 @@ def run_verus(tmp, o, extra_suffix=""):
     r["sliced"] = meta["sliced"]
     r["assumes"] = meta.get("assumes", [])
     r["types"] = meta.get("types", [])
+    r["consts"] = meta.get("consts", [])
     t0 = time.time()
     cmd = ["verus", path, "--output-json", "--time", "--multiple-errors", "10", "--rlimit", str(o.get("rlimit", 30))]
     try:
@@ -622,6 +623,8 @@ def build_evidence(pid, tier, seed, obs, results, n_ok, violations, known, undec
             e["extraction_rules_applied"] = r.get("rules")
             e["sliced_from"] = r.get("sliced")
             e["type_definitions_sliced"] = r.get("types")
+            if r.get("consts"):
+                e["real_constants_copied"] = r.get("consts")
             e["callee_contracts_copied_from_verifying_unit"] = r.get("assumes")
             if "vacuity_pass" in r:
                 e["ensures_false_pass"] = r["vacuity_pass"]
